@@ -399,6 +399,7 @@ WITNESSES = ['C08JoinConsumes']
 def run(ctx):
     from . import guardvocab
     guardvocab.G0(ctx, effects={'unpark', 'wake', 'notify', 'wait'})
+    guardvocab.G1(ctx, effects={'unpark', 'wake', 'notify', 'wait'})
     g_state.run_all(ctx, ["S3", "S4", "S7", "S8", "S9"])
     g_sync.run_all(ctx, ["Y1:notify,unpark"])
     W1(ctx)
